@@ -35,13 +35,13 @@ template<int K, int D, class W> inline void obs_dim(W const& w, long* out) {
 	out[4 + 6*K + 3] = l.stride(); out[4 + 6*K + 4] = l.offset(); out[4 + 6*K + 5] = l.nelems();
 	if constexpr(K + 1 < D) { obs_dim<K + 1, D>(w, out); }
 }
-template<class E> inline long eaddr(E const& e, double const* base) { return reinterpret_cast<char const*>(&e) - reinterpret_cast<char const*>(base); }
+template<class E> inline long eaddr(E const& e, void const* base) { return reinterpret_cast<char const*>(&e) - reinterpret_cast<char const*>(base); }
 template<class W, std::enable_if_t<std::is_arithmetic_v<std::decay_t<W>>, int> = 0>
-inline void observe(W&& w, double const* base, long* out, long, long, long, long, long) { out[0] = eaddr(w, base); }
+inline void observe(W&& w, void const* base, long* out, long, long, long, long, long) { out[0] = eaddr(w, base); }
 template<class W, std::enable_if_t<std::is_arithmetic_v<std::decay_t<W>>, int> = 0>
-inline void observe_addr_only(W&& w, double const* base, long* out, long, long, long, long, long) { out[0] = eaddr(w, base); }
+inline void observe_addr_only(W&& w, void const* base, long* out, long, long, long, long, long) { out[0] = eaddr(w, base); }
 template<class W, std::enable_if_t<!std::is_arithmetic_v<std::decay_t<W>>, int> = 0>
-inline void observe(W&& w, double const* base, long* out, long i0, long i1, long i2, long i3, long i4) {
+inline void observe(W&& w, void const* base, long* out, long i0, long i1, long i2, long i3, long i4) {
 	constexpr int D = std::decay_t<W>::rank_v;
 	if constexpr(D == 1) { out[0] = eaddr(w[i0], base); }
 	if constexpr(D == 2) { out[0] = eaddr(w[i0][i1], base); }
@@ -52,7 +52,7 @@ inline void observe(W&& w, double const* base, long* out, long i0, long i1, long
 	obs_dim<0, D>(w, out);
 }
 template<class W, std::enable_if_t<!std::is_arithmetic_v<std::decay_t<W>>, int> = 0>
-inline void observe_addr_only(W&& w, double const* base, long* out, long i0, long i1, long i2, long i3, long i4) {
+inline void observe_addr_only(W&& w, void const* base, long* out, long i0, long i1, long i2, long i3, long i4) {
 	constexpr int D = std::decay_t<W>::rank_v;
 	if constexpr(D == 1) { out[0] = eaddr(w[i0], base); }
 	if constexpr(D == 2) { out[0] = eaddr(w[i0][i1], base); }
@@ -335,11 +335,12 @@ class ViewRun:
 class Custom:
     """free-form obligation: C++ body storing into out[k]; `wants` maps k -> expected Poly (function of case)"""
 
-    def __init__(self, key, family, D, args, body, wants, cases=None, signs=None, view=True, zb=None, known_div=False):
+    def __init__(self, key, family, D, args, body, wants, cases=None, signs=None, view=True, declare=True):
         self.key, self.family, self.D, self.args, self.body, self.wants = key, family, D, args, body, wants
         self.cases = cases or [dict()]
         self.signs = signs or {}
         self.view = view
+        self.declare = declare
 
 
 class CustomRun:
@@ -366,7 +367,7 @@ class CustomRun:
                 desc = "".join(", long s%d, long o%d, long n%d" % (k, k, k) for k in range(D)) if it.view else ""
                 oargs = "".join(", long %s" % a for a in it.args)
                 out.append('extern "C" void %s(double* base%s%s, long* out) {' % (self.fn(i), desc, oargs))
-                if it.view:
+                if it.view and it.declare:
                     dargs = ", ".join("s%d, o%d, n%d" % (k, k, k) for k in range(D))
                     out.append("\tmulti::subarray<double, %d> v(mk%d(%s), base);" % (D, D, dargs))
                 out.append("\t" + it.body)
@@ -422,3 +423,20 @@ class CustomRun:
                     w = w.subst(env)
                     key = kover or "%s%s%s" % (it.key, ("." + name) if name else ("[%d]" % k if len(wants) > 1 else ""), ctag)
                     cmp_.compare(key, it.family, st.get(8 * k), w, signs, type("o", (), {"expr": it.body})(), it.D)
+
+
+def view_wants(want_view, idx, elem_bytes=ELEM, byte_off=0, raw=True, shape=True):
+    """expected contents of the out-array written by observe() for a result view (see PRELUDE)"""
+    w = {(0, "addr"): want_view.addr(idx[:want_view.D]) * elem_bytes + byte_off}
+    if not shape:
+        return w
+    w[(1, "size")] = want_view.dims[0].z
+    w[(2, "num_elements")] = want_view.num_elements()
+    w[(3, "is_empty")] = P.const(0)
+    for k, d in enumerate(want_view.dims):
+        vals = [d.f, d.z, d.s, d.s, d.f * d.s, d.z * d.s]
+        for j, (on, val) in enumerate(zip(OBS, vals)):
+            if on.startswith("raw") and not raw:
+                continue
+            w[(4 + 6 * k + j, "%s%d" % (on, k))] = val
+    return w
